@@ -379,9 +379,9 @@ func (m *Machine) runBlocks(fr *frame) Value {
 				if m.goAsNoop() {
 					break
 				}
-				panic(m.unsupported("channel send"))
-			case *ssa.Select:
-				panic(m.unsupported("select"))
+				if !m.chanSend(m.get(fr, x.Chan), m.get(fr, x.X)) {
+					panic(m.unsupported("channel send would block (sequential execution)"))
+				}
 			case ssa.Value:
 				if m.initing && fr.fn.Synthetic == "package initializer" {
 					fr.locals[x] = m.evalInit(fr, in)
@@ -477,7 +477,13 @@ func (m *Machine) evalValue(fr *frame, in ssa.Instruction) Value {
 		if m.goAsNoop() {
 			return ChanV{}
 		}
-		panic(m.unsupported("make chan"))
+		n, ok := m.concreteInt(m.get(fr, x.Size))
+		if !ok {
+			panic(m.unsupported("make chan with symbolic size"))
+		}
+		return ChanV{C: &Cell{Epoch: m.epoch, V: chanState{cap: int(n)}}}
+	case *ssa.Select:
+		return m.selectOp(fr, x)
 	case *ssa.MakeSlice:
 		return m.makeSlice(fr, x)
 	case *ssa.Slice:
@@ -905,7 +911,14 @@ func (m *Machine) unop(fr *frame, x *ssa.UnOp) Value {
 	case token.XOR:
 		return m.TT.BvNot(v.(*Term))
 	case token.ARROW:
-		panic(m.unsupported("channel receive"))
+		val, ok, ready := m.chanRecv(v, x.X.Type().Underlying().(*types.Chan).Elem())
+		if !ready {
+			panic(m.unsupported("channel receive would block (sequential execution)"))
+		}
+		if x.CommaOk {
+			return TupleV{val, m.TT.Bool(ok)}
+		}
+		return val
 	}
 	panic(m.unsupported(fmt.Sprintf("unop %s on %T", x.Op, v)))
 }
@@ -1189,7 +1202,7 @@ func (m *Machine) valueEq(a, b Value) *Term {
 		}
 	case ChanV:
 		if y, ok := b.(ChanV); ok {
-			return m.TT.Bool(x.Nil && y.Nil)
+			return m.TT.Bool((x.Nil && y.Nil) || (x.C != nil && x.C == y.C))
 		}
 	case IfaceV:
 		switch y := b.(type) {
@@ -1535,3 +1548,86 @@ func (m *Machine) rangeNext(fr *frame, x *ssa.Next) Value {
 }
 
 var _ = big.NewInt
+
+// ---- channels (sequential semantics, see ChanV) ----
+
+func (m *Machine) chanState(v Value) (ChanV, chanState, bool) {
+	ch, ok := v.(ChanV)
+	if !ok || ch.Nil || ch.C == nil {
+		return ch, chanState{}, false
+	}
+	return ch, ch.C.V.(chanState), true
+}
+
+func (m *Machine) chanSend(c, x Value) bool {
+	ch, st, ok := m.chanState(c)
+	if !ok {
+		return false
+	}
+	if st.closed {
+		panic(m.rtPanic("chan", "send on closed channel"))
+	}
+	if len(st.items) >= st.cap {
+		return false
+	}
+	items := append(append([]Value{}, st.items...), x)
+	m.storeCell(ch.C, chanState{items: items, cap: st.cap, closed: st.closed})
+	return true
+}
+
+// chanRecv returns (value, ok, ready).
+func (m *Machine) chanRecv(c Value, elem types.Type) (Value, bool, bool) {
+	ch, st, ok := m.chanState(c)
+	if !ok {
+		return nil, false, false
+	}
+	if len(st.items) == 0 {
+		if st.closed {
+			return m.zero(elem), false, true
+		}
+		return nil, false, false
+	}
+	v := st.items[0]
+	m.storeCell(ch.C, chanState{items: append([]Value{}, st.items[1:]...), cap: st.cap, closed: st.closed})
+	return v, true, true
+}
+
+func (m *Machine) selectOp(fr *frame, x *ssa.Select) Value {
+	// result: (index int, recvOk bool, r_0, ..., r_{n-1}) with one r per receive state
+	nrecv := 0
+	for _, s := range x.States {
+		if s.Dir == types.RecvOnly {
+			nrecv++
+		}
+	}
+	res := make(TupleV, 2+nrecv)
+	res[1] = m.TT.False
+	ri := 0
+	for _, s := range x.States {
+		if s.Dir == types.RecvOnly {
+			res[2+ri] = m.zero(s.Chan.Type().Underlying().(*types.Chan).Elem())
+			ri++
+		}
+	}
+	ri = 0
+	for i, s := range x.States {
+		if s.Dir == types.RecvOnly {
+			v, ok, ready := m.chanRecv(m.get(fr, s.Chan), s.Chan.Type().Underlying().(*types.Chan).Elem())
+			if ready {
+				res[0] = m.TT.BVConst(64, uint64(i))
+				res[1] = m.TT.Bool(ok)
+				res[2+ri] = v
+				return res
+			}
+			ri++
+		} else if m.chanSend(m.get(fr, s.Chan), m.get(fr, s.Send)) {
+			res[0] = m.TT.BVConst(64, uint64(i))
+			return res
+		}
+	}
+	if x.Blocking {
+		panic(m.unsupported("select would block (sequential execution)"))
+	}
+	res[0] = m.TT.BVConst(64, ^uint64(0)) // -1: default case
+	return res
+}
